@@ -11,6 +11,7 @@ import Peppi.Lemmas.GenInst
 import Peppi.Lemmas.GenCor
 import Peppi.Lemmas.GenExample
 import Peppi.Lemmas.Longer
+import Peppi.Lemmas.GeckoU
 set_option linter.unusedVariables false
 namespace Peppi.Props.C08
 
@@ -131,5 +132,16 @@ theorem exampleIrr_N :
        junk := [] } : Irr).OK T0
       (exReplay (exBlock 3 17 760) (exFrames [-123, -122, -122] 17 32 2 16 1 true) [2, 255, 0, 1, 255, 255]) (startOf (exBlock 3 17 760)) none :=
   _root_.Peppi.exampleIrr_N 
+
+/- from `Peppi.Lemmas.GeckoU` -/
+open Extracted in
+theorem midRun_geckoU (t : List (Nat × Nat)) (sl : Nat) (s : Start) (g : GeckoBlocks) (us : List (List (Nat × Bytes)))
+    (hfull : ∀ b ∈ g.init, FullBlock b) (hlast : LastBlock g.last) (htot : g.total < 2 ^ 32)
+    (hsz : sizeOfEv t.reverse EV_SPLITTER = some 516)
+    (hus : ∀ u ∈ us, ∀ e ∈ u, isKnown e.1 = false ∧ e.1 < 256 ∧ sizeOfEv t.reverse e.1 = some e.2.length) :
+    MidRun (ps0T t sl s) (g.encU us)
+      { st := { (ps0T t sl s).st with splitRaw := [], splitActual := g.total, gecko := some (Gecko.mk (catData g.all) g.total) },
+        bytesRead := (ps0T t sl s).bytesRead + (g.encU us).length } :=
+  _root_.Peppi.midRun_geckoU t sl s g us hfull hlast htot hsz hus
 
 end Peppi.Props.C08
